@@ -1,4 +1,4 @@
-import BobModel.Proofs.C13Env
+import BobModel.Proofs.C13Sandbox
 /-
 C13 — steps run in exactly the declared environment.  Property theorems about Model/ShellEnv.lean.
 Helper lemmas are in Proofs/C13Quote.lean (word level), Proofs/C13Eval.lean (text level), Proofs/C13Env.lean
@@ -93,5 +93,326 @@ theorem prolog_env_exact (abs : Str → Str) (s : Spec) (hwf : Spec.WF abs s) (E
             simp only [keys, List.mem_map]
             exact ⟨kv, hkv, hxk⟩
           exact ((lookup_none_iff _ _).mp hl) this
+
+/-- the hypotheses are satisfiable by a non-trivial instance (values with quote, dollar, blank, newline,
+a tool path with a blank, a package name with a quote), and the theorem applies to it -/
+example : Spec.WF id exSpec := exSpec_wf
+example := prolog_env_exact id exSpec exSpec_wf [(['H'], ['h'])] []
+
+/-! ### which variables a script sees -/
+
+/-- **env_declared_only**: a step script (checkout, build or package) sees, besides the three Bob variables,
+exactly: the variables declared for the step (strong or weak) that are defined, with the value the recipes
+computed; otherwise what the Invoker added explicitly (`extra`: the sandbox image's PATH); otherwise the host
+variable — and that only if the user preserved the environment or the name is whitelisted. -/
+theorem env_declared_only (abs : Str → Str) (full : Env) (strong weak : List Str) (s : Spec)
+    (hs : s.env = stepEnvOf full strong weak) (hwf : Spec.WF abs s)
+    (preserve : Bool) (wl : List Str) (host extra : Env) :
+    ∃ sh, scriptEnv abs s preserve wl host extra = .ok sh ∧
+      ∀ k, isBobVar k = false →
+        lookup sh.env k =
+          if (k ∈ strong ∨ k ∈ weak) ∧ (lookup full k).isSome then lookup full k
+          else if (lookup extra k).isSome then lookup extra k
+          else if preserve = true ∨ k ∈ wl then lookup host k
+          else none := by
+  obtain ⟨sh, h1, _, _, _, h5⟩ := prolog_env_exact abs s hwf (processEnv preserve wl host none extra) []
+  refine ⟨sh, h1, fun k hk => ?_⟩
+  rw [h5 k hk, hs, lookup_stepEnvOf]
+  unfold processEnv
+  simp only [Option.getD_none, List.nil_append, lookup_append, lookup_hostFilter]
+  by_cases hd : k ∈ strong ∨ k ∈ weak
+  · cases hf : lookup full k <;> cases he : lookup extra k <;> simp [hd]
+  · cases he : lookup extra k <;> simp [hd]
+
+example := env_declared_only id exFull [['A']] [['B']] exSpec rfl exSpec_wf false [['H']] [(['H'], ['h']), (['D'], ['x'])] []
+
+/-- no other variable of the invoking environment is visible unless the user asked to preserve it:
+a host variable that is neither whitelisted nor declared nor one of Bob's is NOT in the script's environment,
+whatever its name and value -/
+theorem host_variable_hidden (abs : Str → Str) (full : Env) (strong weak : List Str) (s : Spec)
+    (hs : s.env = stepEnvOf full strong weak) (hwf : Spec.WF abs s) (wl : List Str) (host : Env) (k : Str)
+    (hbob : isBobVar k = false) (hwl : k ∉ wl) (hdecl : k ∉ strong ∧ k ∉ weak) :
+    ∃ sh, scriptEnv abs s false wl host [] = .ok sh ∧ lookup sh.env k = none := by
+  obtain ⟨sh, h1, h2⟩ := env_declared_only abs full strong weak s hs hwf false wl host []
+  refine ⟨sh, h1, ?_⟩
+  rw [h2 k hbob]
+  simp [hdecl.1, hdecl.2, hwl, lookup]
+
+/-- a declared variable that is defined arrives with exactly the computed value, even if the host has a
+variable of the same name (whitelisted or not) -/
+theorem declared_variable_exact (abs : Str → Str) (full : Env) (strong weak : List Str) (s : Spec)
+    (hs : s.env = stepEnvOf full strong weak) (hwf : Spec.WF abs s) (preserve : Bool) (wl : List Str)
+    (host extra : Env) (k v : Str) (hbob : isBobVar k = false) (hdecl : k ∈ strong ∨ k ∈ weak)
+    (hv : lookup full k = some v) :
+    ∃ sh, scriptEnv abs s preserve wl host extra = .ok sh ∧ lookup sh.env k = some v := by
+  obtain ⟨sh, h1, h2⟩ := env_declared_only abs full strong weak s hs hwf preserve wl host extra
+  refine ⟨sh, h1, ?_⟩
+  rw [h2 k hbob]
+  simp [hdecl, hv]
+
+/-! ### arguments and tools -/
+
+/-- **args_in_order**: `"$1" … "$n"` of the step script are the execution paths of the declared dependencies,
+in declared order; an invalid dependency (a package without the step) appears as its placeholder -/
+theorem args_in_order (abs : Str → Str) (d : StepDesc) (cwd bash script : Str) (trace : Bool)
+    (hb : bash ≠ ['-', '-']) :
+    positionalOf (setupCallArgs abs (specOfStep d cwd) bash script trace) = d.args.map (fun a => abs a.execPath) ∧
+    ∀ a ∈ d.args, a.valid = false → a.execPath = Consts.C13.invalidExecPrefix ++ a.name := by
+  constructor
+  · cases trace <;>
+      simp [setupCallArgs, specOfStep, positionalOf, hb, List.map_map, Function.comp_def]
+  · intro a _ hv
+    simp [DepStep.execPath, hv]
+
+example := args_in_order id exDesc ['/', 'w'] ['b', 'a', 's', 'h'] ['/', 's'] false (by decide)
+
+/-- **tools_on_path**: after the prolog every tool the step uses is a component of `PATH` and every library
+directory of such a tool a component of `LD_LIBRARY_PATH` (by its execution path) -/
+theorem tools_on_path (abs : Str → Str) (d : StepDesc) (cwd : Str) (hwf : Spec.WF abs (specOfStep d cwd))
+    (E₀ : Env) (A₀ : List (Str × List (Str × Str))) :
+    ∃ sh, evalScript ⟨E₀, A₀⟩ (formatProlog abs (specOfStep d cwd) false) = .ok sh ∧
+      (∀ t ∈ d.tools, ∃ v, lookup sh.env Consts.C13.varPath = some v ∧ IsComponent (abs t.execPath) v) ∧
+      (∀ t ∈ d.tools, ∀ l ∈ t.libs, ∃ v, lookup sh.env Consts.C13.varLdLibraryPath = some v ∧
+        IsComponent (abs (pathJoin t.step.execPath l)) v) := by
+  obtain ⟨sh, h1, h2, h3, _, _⟩ := prolog_env_exact abs (specOfStep d cwd) hwf E₀ A₀
+  refine ⟨sh, h1, ?_, ?_⟩
+  · intro t ht
+    refine ⟨_, h2, isComponent_join _ _ ?_⟩
+    simp only [specOfStep, sortStrs, List.mem_append, List.mem_map]
+    left
+    exact ⟨t.execPath, (List.mergeSort_perm _ _).mem_iff.mpr (List.mem_map.mpr ⟨t, ht, rfl⟩), rfl⟩
+  · intro t ht l hl
+    refine ⟨_, h3, isComponent_join _ _ ?_⟩
+    simp only [specOfStep, sortTools, List.mem_map, List.mem_flatMap]
+    exact ⟨pathJoin t.step.execPath l, ⟨t, (List.mergeSort_perm _ _).mem_iff.mpr ht, ⟨l, hl, rfl⟩⟩, rfl⟩
+
+/-! ### fingerprint scripts -/
+
+/-- **fingerprint scripts see only `fingerprintVars` (of the step's environment) on top of the filtered host
+environment**: bash evaluating the generated preamble in `E₀` (= whitelisted host variables + BOB_CWD) ends
+with exactly `E₀` plus the step variables named in `fingerprintVars`, byte for byte -/
+theorem fingerprint_env_only (stepEnv : Env) (fpVars : List Str) (hn : (keys stepEnv).Nodup)
+    (hid : ∀ kv ∈ stepEnv, isIdent kv.1 = true ∧ NoNul kv.2) (E₀ : Env) :
+    ∃ sh, evalScript ⟨E₀, []⟩ (fingerprintPreamble (fingerprintEnvOf stepEnv fpVars)) = .ok sh ∧
+      ∀ k, lookup sh.env k = if k ∈ fpVars then (lookup stepEnv k).or (lookup E₀ k) else lookup E₀ k := by
+  let fe := fingerprintEnvOf stepEnv fpVars
+  let xs : List Export := sortExports (fe.map fun kv => (⟨kv.1, [kv.2], false⟩ : Export))
+  have hmem : ∀ kv ∈ fe, kv ∈ stepEnv ∧ fpVars.contains kv.1 = true := fun kv h => by
+    simpa [fe, fingerprintEnvOf, List.mem_filter] using h
+  have hwf : ∀ c ∈ fingerprintCmds fe, c.WF := by
+    intro c hc
+    simp only [fingerprintCmds, List.mem_reverse, List.mem_append, List.mem_map] at hc
+    rcases hc with ⟨t, ht, rfl⟩ | ⟨e, he, rfl⟩
+    · obtain ⟨h1, h2⟩ := setO_ok t ht
+      obtain ⟨r, hr⟩ := Option.isSome_iff_exists.mp h1
+      have := stripPrefix_some _ _ _ hr
+      refine ⟨r, this, ?_⟩
+      intro hmem'
+      have : t.contains '\n' = true := by
+        rw [this]; simp [hmem']
+      rw [h2] at this; cases this
+    · rw [mem_sortExports] at he
+      obtain ⟨kv, hkv, rfl⟩ := List.mem_map.mp he
+      have := hid kv (hmem kv hkv).1
+      exact ⟨this.1, fun p hp => by
+        have : p = kv.2 := by simpa using hp
+        rw [this]; exact (hid kv (hmem kv hkv).1).2⟩
+  refine ⟨_, evalScript_render _ _ hwf, ?_⟩
+  have hfold : ((fingerprintCmds fe).foldl Cmd.eval ⟨E₀, []⟩).env = exportsEnv E₀ xs.reverse := by
+    simp only [fingerprintCmds, List.reverse_append, List.foldl_append]
+    rw [← List.map_reverse, foldl_export_cmds]
+    rw [foldl_eval_env]
+    intro c hc e
+    simp only [List.mem_reverse, List.mem_map] at hc
+    obtain ⟨t, _, rfl⟩ := hc
+    simp
+  rw [hfold]
+  have hnames : (xs.reverse.map Export.name).Nodup := by
+    have hp : (xs.reverse.map Export.name).Perm (keys fe) := by
+      have h1 := ((List.reverse_perm xs).map Export.name)
+      have h2 : (xs.map Export.name).Perm ((fe.map fun kv => (⟨kv.1, [kv.2], false⟩ : Export)).map Export.name) :=
+        (sortExports_perm (fe.map fun kv => (⟨kv.1, [kv.2], false⟩ : Export))).map Export.name
+      have h3 : (fe.map fun kv => (⟨kv.1, [kv.2], false⟩ : Export)).map Export.name = keys fe := by
+        simp [keys, List.map_map, Function.comp_def]
+      rw [h3] at h2
+      exact h1.trans h2
+    exact hp.nodup_iff.mpr (filter_keys_nodup _ _ hn)
+  have hnp : ∀ y ∈ xs.reverse, y.withPath = true → y.name = Consts.C13.varPath := by
+    intro y hy hw
+    rw [List.mem_reverse, mem_sortExports] at hy
+    obtain ⟨kv, _, rfl⟩ := List.mem_map.mp hy
+    simp at hw
+  intro k
+  have hlk : lookup fe k = if k ∈ fpVars then lookup stepEnv k else none := by
+    simp only [fe, fingerprintEnvOf]
+    rw [lookup_filter stepEnv (fun k => fpVars.contains k) k]
+    simp
+  cases hv : lookup fe k with
+  | some v =>
+    have hm : (⟨k, [v], false⟩ : Export) ∈ xs.reverse := by
+      rw [List.mem_reverse, mem_sortExports]
+      exact List.mem_map.mpr ⟨(k, v), mem_of_lookup _ _ _ hv, rfl⟩
+    have := exportsEnv_mem _ E₀ _ hnames hm hnp
+    simp only [Export.value, Bool.false_eq_true, if_false, List.append_nil, joinWith] at this
+    rw [this]
+    rw [hv] at hlk
+    by_cases hk : k ∈ fpVars
+    · simp only [hk, if_true] at hlk ⊢
+      rw [← hlk]; simp
+    · simp [hk] at hlk
+  | none =>
+    rw [exportsEnv_notin]
+    · rw [hv] at hlk
+      by_cases hk : k ∈ fpVars
+      · simp only [hk, if_true] at hlk ⊢
+        rw [← hlk]; simp
+      · simp [hk]
+    · intro x hx hxk
+      rw [List.mem_reverse, mem_sortExports] at hx
+      obtain ⟨kv, hkv, rfl⟩ := List.mem_map.mp hx
+      simp only at hxk
+      have : k ∈ keys fe := by
+        simp only [keys, List.mem_map]
+        exact ⟨kv, hkv, hxk⟩
+      exact ((lookup_none_iff _ _).mp hv) this
+
+/-! ### sandbox -/
+
+/-- every dependency mount of a step comes from a VALID declared dependency: an argument, a used tool, the
+sandbox image, or an earlier step of the step's own package (`chain`) -/
+theorem depMounts_declared (d : StepDesc) :
+    ∀ sm ∈ d.depMounts, ∃ a : DepStep,
+      (a ∈ d.args ∨ (∃ t ∈ d.tools, a = t.step) ∨ d.sandbox = some a ∨ a ∈ d.chain) ∧ a.valid = true ∧
+      sm = (a.storage, a.execPath) := by
+  have chain : ∀ (l : List DepStep) (v c : Bool), ∀ sm ∈ extraMounts v c l,
+      ∃ a ∈ l, a.valid = true ∧ sm = (a.storage, a.execPath) := by
+    intro l
+    induction l with
+    | nil => intro v c sm h; simp [extraMounts] at h
+    | cons n rest ih =>
+      intro v c sm h
+      simp only [extraMounts] at h
+      split at h
+      · simp only [List.mem_append] at h
+        rcases h with h | h
+        · split at h
+          · rename_i hv
+            simp only [List.mem_cons, List.mem_nil_iff, or_false] at h
+            exact ⟨n, by simp, hv, h⟩
+          · simp at h
+        · obtain ⟨a, ha, hr⟩ := ih _ _ sm h
+          exact ⟨a, by simp [ha], hr⟩
+      · simp at h
+  intro sm h
+  simp only [StepDesc.depMounts, List.mem_append, List.mem_map, List.mem_filter] at h
+  rcases h with ⟨a, ⟨ha, hv⟩, rfl⟩ | h
+  · refine ⟨a, ?_, hv, rfl⟩
+    simp only [StepDesc.allDeps, List.mem_append, List.mem_map, Option.mem_toList] at ha
+    rcases ha with (ha | ⟨t, ht, rfl⟩) | ha
+    · exact Or.inl ha
+    · exact Or.inr (Or.inl ⟨t, (List.mergeSort_perm _ _).mem_iff.mp ht, rfl⟩)
+    · exact Or.inr (Or.inr (Or.inl ha))
+  · obtain ⟨a, ha, hv, e⟩ := chain _ _ _ sm h
+    exact ⟨a, Or.inr (Or.inr (Or.inr ha)), hv, e⟩
+
+/-- **sandbox_view** (slim sandbox: `--slim-sandbox`, and steps without image under `--dev-sandbox`, `--strict-sandbox`).
+Hypotheses: the helper accepted the command line Bob built (`hparse`), and — the helper's mount contract,
+ASSUMED — what a path inside the sandbox leads to is given by `resolve` on the parsed mount table (`hview`).
+Then (1) the only writable places are the private whiteout directory, the step's own workspace and its env
+file; (2) below the project directory (`cwd`) a path leads to the private (initially empty) whiteout, the
+script, the env file, the own workspace or a dependency mount — never to any other part of the project — and
+the dependency mounts are read-only. -/
+theorem sandbox_view (abs : Str → Str) (tmpDir cwd : Str) (entries : List Str) (rs es : Str) (net : Bool)
+    (envFile : Option Str) (wsS wsE : Str) (deps : List (Str × Str)) (cmd : List Str) (o : HelperOpts)
+    (hparse : parseHelper {} (renderHArgs (slimGroups tmpDir cwd entries ++
+        stepGroups abs rs es net envFile wsS wsE deps) ++ ['-', '-'] :: cmd) = .ok o)
+    (view : Str → Option (Mount × List Str)) (hview : ∀ p, view p = resolve o.mounts p) :
+    (∀ p m rest, view p = some (m, rest) → m.rw = true →
+        m = whiteoutMount tmpDir cwd ∨ m = ⟨abs wsS, abs wsE, true⟩ ∨
+        ∃ f, envFile = some f ∧ m = ⟨abs f, strOf "/bob/env", true⟩) ∧
+    (∀ p m rest, (comps cwd).isPrefixOf (comps p) = true → view p = some (m, rest) →
+        m = whiteoutMount tmpDir cwd ∨ m ∈ stepMounts abs rs es envFile wsS wsE deps) ∧
+    (∀ m ∈ stepMounts abs rs es envFile wsS wsE deps,
+        m = ⟨abs rs, es, false⟩ ∨ (∃ f, envFile = some f ∧ m = ⟨abs f, strOf "/bob/env", true⟩) ∨
+        m = ⟨abs wsS, abs wsE, true⟩ ∨ ∃ d ∈ deps, m = ⟨abs d.1, abs d.2, false⟩) := by
+  have hok : ∀ g ∈ slimGroups tmpDir cwd entries ++ stepGroups abs rs es net envFile wsS wsE deps, g.Ok := by
+    intro g hg
+    rcases List.mem_append.mp hg with h | h
+    · exact slimGroups_ok _ _ _ g h
+    · exact stepGroups_ok _ _ _ _ _ _ _ _ g h
+  have hm := parseHelper_render _ {} o cmd hok hparse
+  simp only [HelperOpts.eff, HelperOpts.flush, List.nil_append, List.flatMap_append, slimGroups_mounts,
+    stepGroups_mounts] at hm
+  have hstep : ∀ m ∈ stepMounts abs rs es envFile wsS wsE deps,
+      m = ⟨abs rs, es, false⟩ ∨ (∃ f, envFile = some f ∧ m = ⟨abs f, strOf "/bob/env", true⟩) ∨
+      m = ⟨abs wsS, abs wsE, true⟩ ∨ ∃ d ∈ deps, m = ⟨abs d.1, abs d.2, false⟩ := by
+    intro m h
+    unfold stepMounts at h
+    cases envFile with
+    | none =>
+      simp only [List.append_nil, List.mem_append, List.mem_cons, List.mem_nil_iff, or_false, List.mem_map] at h
+      rcases h with (h | h) | ⟨d, hd, rfl⟩
+      · exact Or.inl h
+      · exact Or.inr (Or.inr (Or.inl h))
+      · exact Or.inr (Or.inr (Or.inr ⟨d, hd, rfl⟩))
+    | some f =>
+      simp only [List.mem_append, List.mem_cons, List.mem_nil_iff, or_false, List.mem_map] at h
+      rcases h with ((h | h) | h) | ⟨d, hd, rfl⟩
+      · exact Or.inl h
+      · exact Or.inr (Or.inl ⟨f, rfl, h⟩)
+      · exact Or.inr (Or.inr (Or.inl h))
+      · exact Or.inr (Or.inr (Or.inr ⟨d, hd, rfl⟩))
+  refine ⟨?_, ?_, hstep⟩
+  · intro p m rest hv hrw
+    rw [hview, hm] at hv
+    have hmem := resolve_mem _ _ _ _ hv
+    simp only [List.mem_append, List.mem_map, List.mem_cons, List.mem_nil_iff, or_false] at hmem
+    rcases hmem with (⟨f, _, rfl⟩ | h) | h
+    · simp at hrw
+    · exact Or.inl h
+    · rcases hstep m h with rfl | ⟨f, hf, rfl⟩ | rfl | ⟨d, _, rfl⟩
+      · simp at hrw
+      · exact Or.inr (Or.inr ⟨f, hf, rfl⟩)
+      · exact Or.inr (Or.inl rfl)
+      · simp at hrw
+  · intro p m rest hpre hv
+    rw [hview, hm] at hv
+    have := resolve_after _ (stepMounts abs rs es envFile wsS wsE deps) (whiteoutMount tmpDir cwd) p m rest
+      (by simpa [whiteoutMount] using hpre) (by simpa using hv)
+    exact this
+
+/-- the parse hypothesis is satisfiable: the helper's option parser accepts a concrete slim command line -/
+example : ∃ o, parseHelper {} exSlimArgv = .ok o := ⟨_, rfl⟩
+
+/-- **sandbox_view for an image sandbox** (`--sandbox`, and steps with image under `--dev-sandbox`, `--strict-sandbox`):
+under the same contract every path leads to an entry of the sandbox image (read-only), a host mount the
+sandbox recipe declared (writable only if declared `rw`), the script, the env file, the own workspace or a
+dependency mount (read-only); nothing else of the host or of the project exists inside. -/
+theorem sandbox_view_image (abs : Str → Str) (tmpDir rootFs : Str) (entries : List Str) (isJenkins : Bool)
+    (ex : Str → Bool) (hms : List HostMount) (user : Str) (rs es : Str) (net : Bool)
+    (envFile : Option Str) (wsS wsE : Str) (deps : List (Str × Str)) (cmd : List Str) (o : HelperOpts)
+    (hparse : parseHelper {} (renderHArgs (fatGroups tmpDir rootFs entries isJenkins ex hms user ++
+        stepGroups abs rs es net envFile wsS wsE deps) ++ ['-', '-'] :: cmd) = .ok o)
+    (view : Str → Option (Mount × List Str)) (hview : ∀ p, view p = resolve o.mounts p) :
+    ∀ p m rest, view p = some (m, rest) →
+      (∃ f ∈ entries, m = ⟨pathJoin rootFs f, '/' :: f, false⟩) ∨
+      (∃ hm ∈ hms, m.src = hm.host ∧ (m.rw = true → hm.options.contains (strOf "rw") = true)) ∨
+      m ∈ stepMounts abs rs es envFile wsS wsE deps := by
+  have hok : ∀ g ∈ fatGroups tmpDir rootFs entries isJenkins ex hms user ++
+      stepGroups abs rs es net envFile wsS wsE deps, g.Ok := by
+    intro g hg
+    rcases List.mem_append.mp hg with h | h
+    · exact fatGroups_ok _ _ _ _ _ _ _ g h
+    · exact stepGroups_ok _ _ _ _ _ _ _ _ g h
+  have hm := parseHelper_render _ {} o cmd hok hparse
+  simp only [HelperOpts.eff, HelperOpts.flush, List.nil_append, List.flatMap_append, stepGroups_mounts] at hm
+  intro p m rest hv
+  rw [hview, hm] at hv
+  have hmem := resolve_mem _ _ _ _ hv
+  rcases List.mem_append.mp hmem with h | h
+  · rcases fatGroups_mounts _ _ _ _ _ _ _ m h with h | h
+    · exact Or.inl h
+    · exact Or.inr (Or.inl h)
+  · exact Or.inr (Or.inr h)
 
 end C13
